@@ -235,6 +235,7 @@ func checkC19(p *core.Program, r *core.Report) {
 	r.Rule("O19.3", "mode-taking commands: no success (or possibly-nil) return is reachable when mode is neither accepted value")
 	r.Rule("O19.4", "verify: the verifier's error is the action's result (instance of O19.2 on Verify* sites)")
 	r.Rule("O19.5", "prove: exactly one stdout write site, printing the marshalled proof, on every success path exactly once and on no error path")
+	r.Rule("O19.8", "prove and verify decode the whole of stdin (read to end of stream), not one line / token / Read of it")
 	r.Rule("O19.7", "the codecs the pipeline is composed of hold their own obligations (imported verdicts of C08, C10, C11, C15, C16)")
 	r.Rule("O19.6", "log sinks: repository logger over stderr; re-pointing function unreachable from prove/verify/gen-test-params; gnark logger redirected before app.Run")
 	r.Trusted = append(r.Trusted, "urfave/cli returns an action's error from App.Run", "zerolog Fatal exits with status 1", "encoding/json.Marshal of *prover.Proof cannot fail (writes to an in-memory buffer)")
@@ -455,6 +456,18 @@ func checkC19(p *core.Program, r *core.Report) {
 
 	// ---- O19.6
 	checkLogSinks(p, r, ix, mainUnit, []*cliCommand{prove, verify, gen})
+	// ---- O19.8: the commands that read a document from stdin read all of it
+	nDocs := 0
+	for _, c := range []*cliCommand{prove, verify} {
+		if c == nil || c.Action.Node == nil {
+			continue
+		}
+		if fn := actionSSA(p, *c); fn != nil {
+			nDocs += checkWholeDocument(p, r, "O19.8", "main.cmd:"+c.Name, fn)
+		}
+	}
+	r.Count("stdin documents decoded", nDocs)
+	r.Floor("stdin documents decoded", 3)
 	// ---- O19.7: the pipeline composes through files and pipes only if the codecs it is made of do
 	importVerdicts(p, r, "O19.7", "setup | gen-test-params | prove | verify exchange keys files, parameter JSON, helper hashes and proof JSON", "C08", "C10", "C11", "C15", "C16")
 }
